@@ -1,5 +1,6 @@
 import TFV.Properties.Tree
 import TFV.Properties.TreeCR
+import TFV.Properties.Runs
 #print axioms TFV.Tree.C08_subtree_wf
 #print axioms TFV.Tree.C08_concat_wf
 #print axioms TFV.Tree.C08_depth_concat
@@ -11,3 +12,5 @@ import TFV.Properties.TreeCR
 #print axioms TFV.Tree.C08_growInit
 #print axioms TFV.Tree.C08_onePointX
 #print axioms TFV.Tree.C08_uniformX
+#print axioms TFV.Runs.C08_run_closed
+#print axioms TFV.Runs.C08_run_closed_standard_point
